@@ -55,7 +55,7 @@ PROPS = {
               "thorough": [["store-C02", "--scenarios", "40", "--ops", "2000"]]},
         trusted=STORE_TRUST,
         statement="open(file s) re-establishes the state for any options; reopen is a spec no-op",
-        partial="proved: reopening (read-only or writable) any state reachable by any operation sequence changes no byte, re-establishes the representation invariant and yields the same store (C02.reopen_after_any_history); scanFile ∘ render reconstructs index/free map/sequence number for every well-formed segment list (any zero tail). The header record's options (Collection layer) are tied by correspondence",
+        partial="proved: reopening (read-only or writable) any state reachable by any operation sequence changes no byte, re-establishes the representation invariant and yields the same store (C02.reopen_after_any_history); scanFile ∘ render reconstructs index/free map/sequence number for every well-formed segment list (any zero tail). Collection layer: NewCollection on the file left by any sequence of document operations (any keeping mode, any caller options) succeeds, changes no byte, keeps the creation options and answers GetDocument/GetAllIDs as the specification says (reopen_collection_after_any_history; rebuild_never_fails). The JSON decoding of the header record is an oracle (encoding/json), tied by correspondence",
     ),
     "C13": dict(
         modules=["Syzgy.Props.C13"], ties=["Query"],
